@@ -23,7 +23,8 @@ def tables(rnd, quick):
                         df = (df & ~0xFFFF) | 2
                     sz = SIZE[ty]
                     rd, wr = rnd.choice([(1, 1), (1, 1), (0, 1), (1, 0)])      # also write-only and read-only-by-flag areas: typed access does not depend on the flags
-                    areas = [area(2, 1 + sz + 1, rd=rd, wr=wr, kind=kind)]
+                    hasw = rnd.choice([1, 1, 1, 0])                             # ... and areas without a write function: every set is refused, nothing is stored
+                    areas = [area(2, 1 + sz + 1, rd=rd, wr=wr, hasw=hasw, kind=kind)]
                     regs = [reg(U16, 2, 0, 0, 0, 0x5555), reg(ty, 3, ck, lo, hi, df), reg(U16, 3 + sz, 0, 0, 0, 0xAAAA)]
                     yield be, ty, ck, lo, hi, ins, outs, areas, regs
 
@@ -44,7 +45,7 @@ def scripts(rnd, quick):
         for vt in range(8):
             sc += [set_(1, vt, boundary_values(vt)[2], 0)]
         if ty in (U16, S16):
-            sc += ['sweep16 1 0', 'get 1', 'sweep16 1 1', 'get 1', 'sanitise' if ck != 1 else 'get 0']
+            sc += ['sweep16 1 0', 'get 1', 'sweep16 1 1', 'get 1', 'sanitise' if ck != 1 and areas[0][5] == 1 else 'get 0']
         yield rebased(sc, rnd, 0.3)
 
 
